@@ -535,15 +535,25 @@ pub fn gen_scenario_full(seed: u64, idx: usize, big: bool, big_stderr: bool, hug
             sub = format!("status{}", st);
             expect_exit = st;
             spec.files = vec![("a.txt".into(), Blob::from("one\n")), ("b.txt".into(), Blob::from("two\n"))];
-            spec.args.push("a.txt".into());
-            spec.args.push("b.txt".into());
+            // operands: regular files or process substitutions (`delta <(cmd) file`)
+            let ops: &[(&str, &str)] = &[("a.txt", "b.txt"), ("a.txt", "b.txt"), ("/dev/fd/63", "b.txt"), ("a.txt", "/proc/self/fd/12"), ("/dev/fd/63", "/dev/fd/62")];
+            let (oa, ob) = *rng.pick(ops);
+            if rng.chance(1, 4) {
+                spec.args.push(format!("--diff-args={}", rng.pick(&["-U5", "-w", "--minimal -U1"])));
+            }
+            spec.args.push(oa.into());
+            spec.args.push(ob.into());
+            if oa != "a.txt" || ob != "b.txt" {
+                sub = format!("{}-procsubst", sub);
+            }
             let out = if st == 0 { Vec::new() } else { diff };
             if st == 0 {
                 tokens.clear();
             }
             let stderr = if st >= 2 { "error: Could not access 'x'\n" } else { "" };
             stderr_may = st >= 2;
-            spec.child = Some(ChildSetup { names: vec!["git".into(), "diff".into()], stdout: out.into(), stderr: stderr.into(), stderr_first: rng.chance(1, 2), exit: st, git_version: "git version 2.45.1".into() });
+            let gv = (*rng.pick(&["git version 2.45.1", "git version 2.39.5", "git version 2.42.0", "git version 2.30.1 (Apple Git-130)"])).to_string();
+            spec.child = Some(ChildSetup { names: vec!["git".into(), "diff".into()], stdout: out.into(), stderr: stderr.into(), stderr_first: rng.chance(1, 2), exit: st, git_version: gv });
         }
         "wrapped" => {
             let cmds: &[(&str, &[&str])] = &[
